@@ -6,6 +6,10 @@ package varmq
 //@ package varmq
 //@ type job: frozen id, data
 //@ type job: atomic status
+// wire format of a stored job (persistent / distributed queues): field names and options are part of the contract
+//@ type jobView: jsontag Id "id"
+//@ type jobView: jsontag Status "status"
+//@ type jobView: jsontag Payload "data"
 
 // ---------------------------------------------------------------- job.go
 // A single job's WaitGroup is 1 until the job is closed, then 0 (Wait returns exactly when the job is closed).
